@@ -59,11 +59,12 @@ def project_scenario(s, src, extra_ops=(), parsed=False):
 # --------------------------------------------------------------------------------------
 # random projects
 # --------------------------------------------------------------------------------------
-PKGS = [["p"], ["p", "q"], ["pkg"], ["other", "pkg"], ["g"], ["kg"]]
+PKGS = [["p"], ["p", "q"], ["pkg"], ["other", "pkg"], ["g"], ["kg"], ["Com", "Acme"]]
 NAMES = ["Foo", "XFoo", "FooX", "Bar", "Baz", "Qux", "Foo2", "IFoo", "IBinder", "ParcelFileDescriptor"]
 BUILTINS = ["IBinder", "FileDescriptor", "ParcelFileDescriptor", "ParcelableHolder"]
-MNAMES = ["f", "g", "h", "get", "set", "f2"]
-CODES = ["", "", "", "1", "2", "3", "01", "10", "010", "09", "0", "00", "4294967295", "0", "007", "4294967296", "18446744073709551616",
+MNAMES = ["f", "g", "h", "get", "set", "f2", "F", "Get", "K1"]
+CODES = ["", "", "", "1", "2", "3", "01", "10", "010", "09", "0", "00", "65536", "65537", "2147483647", "2147483648", "16777216",
+         "16777217", "4294967294", "4294967295", "0", "007", "4294967296", "18446744073709551616",
          "99999999999999999999999999999999"]
 
 
@@ -359,12 +360,18 @@ def random_perturbations(rng, n):
         for _k in range(rng.randint(1, 4)):
             x = rng.random()
             if x < 0.35:
-                ops.append({"op": "add", "i": 1, "id": "extra%d" % rng.randint(0, 2),
-                            "text": "package un.related%d;\nparcelable U%d { int u; }\n" % (rng.randint(0, 3), rng.randint(0, 3))})
+                pk = "un.related%d" % rng.randint(0, 3)
+                if rng.random() < 0.4 and pr["files"]:
+                    # an unrelated item in the SAME package as some file of the project
+                    tk = rng.choice(pr["files"])["toks"]
+                    semi = next((i for i, t in enumerate(tk) if t[1] == ";"), 2)
+                    pk = "".join(t[1] for t in tk[1:semi])
+                ops.append({"op": "add", "i": 1, "id": rng.choice(["extra%d" % rng.randint(0, 2), "0first", "zzz-last"]),
+                            "text": "package %s;\nparcelable Unrelated%d { int u; }\n" % (pk, rng.randint(0, 3))})
             elif x < 0.55 and len(files) > 1:
                 ops.append({"op": "remove", "i": 1, "id": rng.choice(list(files))})
             elif x < 0.65:
-                ops.append({"op": "remove", "i": 1, "id": "extra%d" % rng.randint(0, 2)})
+                ops.append({"op": "remove", "i": 1, "id": rng.choice(["extra%d" % rng.randint(0, 2), "0first", "zzz-last"])})
             elif x < 0.80:
                 # rewrite the IMPORTS of some file (an import added right after the package statement, or one dropped),
                 # keeping its package, name and kind: nothing changes for any other file
@@ -427,6 +434,7 @@ def determinism_scenario(files, src, rng, layout="default", procs=2):
         ops.append({"op": "add", "i": 2, "id": id_, "text": t})
     ops.append({"op": "validate", "i": 2, "detail": "digest"})
     ops.append({"op": "validate", "i": 2, "detail": "digest", "thread": True})
+    ops.append({"op": "validate", "i": 1, "detail": "digest", "thread": "same-object"})
     for inst in (3, 4):
         sh = list(texts)
         rng.shuffle(sh)
